@@ -39,6 +39,8 @@ tagged only if EVERY leaked occurrence in it is explained):
            re-spelt from the wrong offsets and swallows the head of the fence's placeholder: a proper suffix of it is left
            (`zxhzdk:N` ETX, `N` ETX, or the ETX alone); fenced_code/extra enabled; input has `&#` ... `</tag` ... line break, fence -- or, the
            root cause observed directly: a fence line in the input and a two-phase parse (gen/htmlstate.two_phase), whichever end tag is re-spelt.
+  A leak inside the href of a wikilink (`<a class="wikilink" href=...>`) is never explained by a known region: the label class admits no
+  placeholder character; `[[`, which the F-C10-1 trigger reads as a nested bracket, is the wikilink syntax itself.
   with toc enabled, copies of an F-C10-1/-5 leak of a heading in the toc div / heading id are knock-on effects of that leak.
 REPORT_QUANTIFIER_EXCLUDED: F-C10-4/-5 are regions the property's quantifier excludes; when False they are only counted.
 
@@ -127,6 +129,7 @@ def _drop_headless(work):
     return _TAILPH.sub(fix, work)
 
 
+_WIKIHREF = re.compile(r'<a class="wikilink" href="([^"]*)"')
 _BLANKWIKI = re.compile(r'\[\[ +\]\]')
 # F-C10-6: the abbreviation keys that are a whole "word" (\b...\b) of a placeholder `STX wzxhzdk:N ETX` / `STX N ETX`: the index or code point
 # (digits), `:`, `:N`, and -- only reachable when the input spells the stem, which the property excludes -- `wzxhzdk`, `wzxhzdk:`, `wzxhzdk:N`.
@@ -211,6 +214,13 @@ def classify(text, exts, out, fmt='xhtml'):
         if fid not in found: found.append(fid)
         shapes.append(shape)
 
+    # The href of a wikilink (`<a class="wikilink" href="/label/">`, built from the label by the extension itself) is not a slot of any known
+    # region: the label class (word characters, digits, `_`, space, `-`) admits no placeholder character, and `[[`, which the F-C10-1 trigger
+    # reads as a nested bracket, is the wikilink syntax itself.  Placeholder material there is never explained.
+    if 'wikilinks' in exts:
+        for m in _WIKIHREF.finditer(work):
+            if LEAK.search(m.group(1)):
+                return None, ['unexplained:wikilink-href ' + repr(m.group(0)[:90])]
     # F-C10-3: attr_list re-spellings (STX/ETX -> `_`) of raw-HTML placeholders used as attribute NAMES: ` xx_wzxhzdk:0_yy="`
     if ({'attr_list', 'extra'} & exts) and _BRACE.search(text):
         w2 = _ATTRNAME.sub(' x="', work)
